@@ -11,6 +11,7 @@ struct VectorDouble {
   VectorDouble() : n(0) {} VectorDouble(int k) : n(k) {}
   bool empty() const { return n <= 0; } int size() const { return n; }
   DPtr data() const { DPtr p; p.avail = n; return p; }
+  void resize(int k) { n = k; }
   double& operator[](int i) { __CPROVER_assert(0 <= i && i < n, "VectorDouble index inside the vector"); static double c; return c; }
 };
 struct VH { static VectorDouble inverse(const VectorDouble& v) { return VectorDouble(v.n); } };
@@ -97,3 +98,34 @@ public:
 };
 inline const AMatrixDense* VF_as_dense(const AMatrix* m) { return (const AMatrixDense*) m; }   // all operands are dense in this unit
 inline void AMatrix::prodMatMatInPlace(const AMatrix*, const AMatrix*, bool, bool) {}
+// ---- sparse storage (MatrixSparse, Eigen::SparseMatrix<double>): same dimension typing ---------------------------------------
+namespace Eigen {
+  template <typename T> struct SparseMatrix : Expr {         // dynamic sparse matrix: assignment resizes it
+    SparseMatrix() {}
+    void operator=(const Expr& e) { r = e.r; c = e.c; }
+    int rows() const { return r; } int cols() const { return c; }
+  };
+}
+struct cs { int m, n; };                                      // csparse branch: declared only (isFlagEigen() is true in this unit)
+cs* cs_transpose(cs*, int); cs* cs_multiply(cs*, cs*); cs* cs_spfree2(cs*); cs* cs_add(cs*, cs*, double, double);
+cs* cs_prod_norm(int, cs*, cs*); cs* cs_prod_norm_single(int, cs*); cs* cs_prod_norm_diagonal(int, cs*, const VectorDouble&);
+void cs_vector_xtM(cs*, int, const DPtr&, const DPtr&); void cs_vector_xM(cs*, int, const DPtr&, const DPtr&);
+void cs_vector_tMx(cs*, int, const DPtr&, const DPtr&); void cs_vector_Mx(cs*, int, const DPtr&, const DPtr&);
+void cs_vector_addToDest_tMx(cs*, int, const DPtr&, const DPtr&); void cs_vector_addToDest_Mx(cs*, int, const DPtr&, const DPtr&);
+class MatrixSparse : public AMatrix {
+public:
+  Eigen::SparseMatrix<double> _eigenMatrix; cs* _csMatrix;
+  bool isFlagEigen() const { return true; }                   // Eigen storage (the library default)
+  bool _getFlagCheckAddress() const { return _flagCheckAddress; }
+  bool _checkLink(int nrow1, int ncol1, bool transpose1, int nrow2 = 0, int ncol2 = 0, bool transpose2 = false, int nrow3 = 0, int ncol3 = 0, bool transpose3 = false) const;
+  void _addProdMatVecInPlaceToDestPtr(const DPtr& x, const DPtr& y, bool transpose) const;
+  void _prodMatVecInPlacePtr(const DPtr& x, const DPtr& y, bool transpose) const;
+  void _prodVecMatInPlacePtr(const DPtr& x, const DPtr& y, bool transpose) const;
+  void addMatInPlace(const MatrixSparse& y, double cx, double cy);
+  void prodMatMatInPlace(const AMatrix* x, const AMatrix* y, bool transposeX, bool transposeY);
+  void prodNormMatMatInPlace(const MatrixSparse* a, const MatrixSparse* m, bool transpose);
+  void prodNormMatVecInPlace(const MatrixSparse* a, const VectorDouble& vec, bool transpose);
+  VectorDouble prodVecMat(const VectorDouble& x, bool transpose) const;
+  VectorDouble prodMatVec(const VectorDouble& x, bool transpose) const;
+};
+inline const MatrixSparse* VF_as_sparse(const AMatrix* m) { return (const MatrixSparse*) m; }   // all operands are sparse in the sparse unit
